@@ -341,6 +341,18 @@ class World:
         return self.body(env)
 
     def run(self, thunk, is_async=False, hop=False):
+        before = self.snap_store()
+        first = self.run_once(thunk, is_async, hop)
+        if first["store"] == before and first["outcome"][0] == "raise":
+            # nothing has changed (the body has not run): the same call once more is the same call - the same
+            # conditions are evaluated, the same error factory is called again, the same exception comes out
+            second = self.run_once(thunk, is_async, hop)
+            if second != first:
+                first["outcome"] = ["raise", ["lib", "TheSameCallAgainDiffers", None]]
+                first["second_time"] = second
+        return first
+
+    def run_once(self, thunk, is_async=False, hop=False):
         self.setup = False
         self.is_async = is_async
         self.hop = bool(is_async and hop)
